@@ -25,7 +25,7 @@ CFG = {
         # wave 3 (ProofsFloatTree / ProofsRne): the whole-tree induction over ROUNDED distances for every monotone rounding
         # (gnnNode = nearestNeighbor with the two distance functions as parameters; with the exact ones it IS nnNode);
         # float64 roundTiesToEven (C02.rne on C17's bit-level roundPos) is such a rounding
-        "gnnNode_exact", "gnnNode_spec", "C12_nn_float", "C12_nn_float_id", "C12_rne_rounding", "C12_nn_rne",
+        "gnnNode_exact", "gnnNode_spec", "C12_nn_float", "C12_nn_float_id", "C12_rne_rounding", "C12_nn_rne", "C12_overflow_known",
         # the cancellation defect (S - d1*d1 + d2*d2) as a kernel-evaluated negation on a two-binade floating format
         "Rounding.fl2", "C12_old_cancellation_unsound",
         # T1: minDist / minMaxDist regenerated from index/rtree/geom.go of the tree under test = the model's
@@ -43,8 +43,10 @@ CFG = {
         "float64 arithmetic of minDist/minMaxDist is exact on the generated inputs of the exact families (dyadic coordinates; every square, "
         "sum and difference representable: below 2^53 times the square of the unit), so the comparisons of the float squared distances are "
         "the model's Rat comparisons; since fix 2ded5fb the code compares the squared distances themselves (no math.Sqrt left in the search). "
-        "On inputs where the arithmetic rounds, the prune is covered by C12_prune_float for any monotone rounding without overflow (float64 "
-        "round-to-nearest is one: trusted, not proved in Lean); the nn-round*/specOnly families are judged by the Spec up to 2^-40 relative",
+        "On inputs where the arithmetic rounds, the whole search is covered by C12_nn_float for any monotone rounding, and float64 "
+        "roundTiesToEven is proved to be one (C12_rne_rounding, on C02.rne / C17's bit-level roundPos); the Rat model saturates at 2^1024 and "
+        "starts from +infinity where the code starts from math.MaxFloat64: faithful while every intermediate value stays below 2^1024 - 2^970 "
+        "(beyond: known finding, the code panics / returns nil slots); the nn-round*/specOnly families are judged by the Spec up to 2^-40 relative",
         "sort.Sort acts on the entrySlice only through Len/Less/Swap with indices below Len (sort.Interface contract); then "
         "C12_sort_contract gives the permutation/pairing that the theorems need",
         "the C11 trusted base (tree model, hook, harness)",
@@ -59,6 +61,9 @@ CFG = {
             "dyadic coordinate units 1, 1/2, 1/8, 1/64, 1/1024, 16 and a jittered lattice in the unit square, so that distances < 1 occur; "
             "non-dyadic clouds on the k/10, k/7, k/3 grids with shared coordinates (zero-width / zero-height node boxes, query outside the slab) and "
             "clouds with one axis at 2^52+{0..3} (midpoint of a node box not a float64) — Spec only, tolerance 2^-40 (class specOnly); "
+            "ring (all objects on a circle around the query, 1-3 inner objects near the axes; MaxChildren 9..70, 9+ leaves below one node: every branch is "
+            "kept by MINMAXDIST pruning and the nearest object sits below a LATE branch in MINDIST order); huge (grid {0..span}*2^e, e = 500/505/508: squared "
+            "distances exact in [2^1000, 2^1024)); corpus overflow (coordinates 2^600 apart: known finding); "
             "far clusters: squared distances in [2^51,2^53) that differ by 1..4, closer than the float64 grid of their square roots, at scales 2^-40..2^60) followed by 12-14 queries each: points at box "
             "centres (half-integers), corners, on edges, just outside, far outside, grid points prone to ties, random; k in "
             "{NearestNeighbor, 1, 2, 3, size-1, size, size+3, random in 1..size+3; k = 0 and negative k as correspondence only}. One case = one history with all its queries; class = shape-kind-params-height",
